@@ -485,3 +485,62 @@ func genMemOrder(repo, out string) {
 	b.WriteString("def compactMin : Nat := " + minLen + "\ndef compactFactor : Nat := " + factor + "\ndef compactKeeps : String := " + leanStr(keeps) + "\n\nend Hk.Gen.MemOrder\n")
 	must(os.WriteFile(filepath.Join(out, "MemOrderFacts.lean"), []byte(b.String()), 0o644))
 }
+
+// genPruneRules reads the age-based retention DELETEs of maybePrune in both durable stores: (backend, state, time column,
+// comparator). PostgreSQL cannot be executed in this sandbox; this is one of the places where its SQL text can at least be
+// compared with SQLite's, which is executed against the model on every run.
+func genPruneRules(repo, out string) {
+	re := regexp.MustCompile(`(?is)^\s*delete\s+from\s+queue_items\s+where\s+state\s*=\s*(?:\?|\$1)\s+and\s+(\w+)\s*(<=|<|>=|>)\s*(?:\?|\$2)\s*;?\s*$`)
+	consts := stateConsts(repo)
+	var rows []string
+	var js []string
+	for _, be := range []struct{ name, file string }{{"sqlite", "internal/queue/sqlite.go"}, {"postgres", "internal/queue/postgres.go"}} {
+		_, f := parseFile(filepath.Join(repo, be.file))
+		fd := findFunc(f, "maybePrune")
+		if fd == nil {
+			check(fmt.Errorf("%s: no maybePrune", be.file))
+		}
+		n := 0
+		ast.Inspect(fd.Body, func(nd ast.Node) bool {
+			ce, ok := nd.(*ast.CallExpr)
+			if !ok {
+				return true
+			}
+			for i, a := range ce.Args {
+				s, ok := strLit(a)
+				if !ok {
+					continue
+				}
+				m := re.FindStringSubmatch(s)
+				if m == nil {
+					continue
+				}
+				state := "?"
+				if i+1 < len(ce.Args) {
+					ast.Inspect(ce.Args[i+1], func(x ast.Node) bool {
+						if id, ok := x.(*ast.Ident); ok {
+							if v, ok := consts[id.Name]; ok {
+								state = v
+							}
+						}
+						return true
+					})
+				}
+				rows = append(rows, fmt.Sprintf("  (%s, %s, %s, %s)", leanStr(be.name), leanStr(state), leanStr(strings.ToLower(m[1])), leanStr(m[2])))
+				js = append(js, fmt.Sprintf(`{"backend":%q,"state":%q,"column":%q,"cmp":%q}`, be.name, state, strings.ToLower(m[1]), m[2]))
+				n++
+			}
+			return true
+		})
+		if n == 0 {
+			check(fmt.Errorf("%s: maybePrune has no age-based DELETE of the shape this extractor reads", be.file))
+		}
+	}
+	var b strings.Builder
+	b.WriteString("/- GENERATED by /verif/extract — the age-based retention DELETEs of maybePrune in the durable stores. do not edit. -/\nnamespace Hk.Gen\n\n")
+	b.WriteString("/-- (backend, state, time column compared with now − max_age, comparator) -/\ndef pruneRules : List (String × String × String × String) := [\n")
+	b.WriteString(strings.Join(rows, ",\n"))
+	b.WriteString("]\n\nend Hk.Gen\n")
+	must(os.WriteFile(filepath.Join(out, "PruneRules.lean"), []byte(b.String()), 0o644))
+	must(os.WriteFile(filepath.Join(out, "prune_rules.json"), []byte("["+strings.Join(js, ",")+"]\n"), 0o644))
+}
